@@ -49,26 +49,6 @@ func cvLeanInt(n int64) string {
 	return strconv.FormatInt(n, 10)
 }
 
-// cvStringerTable slices the name constant by the index array.
-func cvStringerTable(f *ast.File, typ string) ([]string, error) {
-	name, err := StringConst(f, "_"+typ+"_name")
-	if err != nil {
-		return nil, err
-	}
-	idx, err := IntArray(f, "_"+typ+"_index")
-	if err != nil {
-		return nil, err
-	}
-	var out []string
-	for i := 0; i+1 < len(idx); i++ {
-		if idx[i] > idx[i+1] || int(idx[i+1]) > len(name) {
-			return nil, fmt.Errorf("%s: index table out of range", typ)
-		}
-		out = append(out, name[idx[i]:idx[i+1]])
-	}
-	return out, nil
-}
-
 // cvScaledLit evaluates a numeric literal exactly and scales it; the result
 // must be an integer.
 func cvScaledLit(e ast.Expr, scale int64) (int64, bool, error) {
@@ -100,80 +80,6 @@ func cvScaledLit(e ast.Expr, scale int64) (int64, bool, error) {
 		return n, nan, err
 	}
 	return 0, false, fmt.Errorf("unsupported numeric expression")
-}
-
-func cvFindVar(f *ast.File, name string) ast.Expr {
-	for _, d := range f.Decls {
-		gd, ok := d.(*ast.GenDecl)
-		if !ok {
-			continue
-		}
-		for _, s := range gd.Specs {
-			vs, ok := s.(*ast.ValueSpec)
-			if !ok {
-				continue
-			}
-			for i, n := range vs.Names {
-				if n.Name == name && i < len(vs.Values) {
-					return vs.Values[i]
-				}
-			}
-		}
-	}
-	return nil
-}
-
-// cvWeightTable reads `var name = [...][]float64{{..}, ..}`.
-func cvWeightTable(f *ast.File, name string) (string, int, error) {
-	e := cvFindVar(f, name)
-	cl, ok := e.(*ast.CompositeLit)
-	if !ok {
-		return "", 0, fmt.Errorf("%s: composite literal not found", name)
-	}
-	var rows []string
-	for _, r := range cl.Elts {
-		rl, ok := r.(*ast.CompositeLit)
-		if !ok {
-			return "", 0, fmt.Errorf("%s: row is not a composite literal", name)
-		}
-		var cells []string
-		for _, c := range rl.Elts {
-			n, nan, err := cvScaledLit(c, 1000)
-			if err != nil {
-				return "", 0, fmt.Errorf("%s: %w", name, err)
-			}
-			if nan {
-				cells = append(cells, "none")
-			} else {
-				cells = append(cells, "some "+cvLeanInt(n))
-			}
-		}
-		rows = append(rows, "["+strings.Join(cells, ", ")+"]")
-	}
-	return "[\n  " + strings.Join(rows, ",\n  ") + "]", len(rows), nil
-}
-
-func cvKvField(cl *ast.CompositeLit, key string) ast.Expr {
-	for _, e := range cl.Elts {
-		if kv, ok := e.(*ast.KeyValueExpr); ok {
-			if id, ok := kv.Key.(*ast.Ident); ok && id.Name == key {
-				return kv.Value
-			}
-		}
-	}
-	return nil
-}
-
-func cvNatList(cl *ast.CompositeLit) ([]int64, error) {
-	var out []int64
-	for _, e := range cl.Elts {
-		n, err := IntLit(e)
-		if err != nil {
-			return nil, err
-		}
-		out = append(out, n)
-	}
-	return out, nil
 }
 
 // cvCaseCond reads `s == 0`, `s < 4`, `score <= 10` -> (op, bound*10).
@@ -276,147 +182,41 @@ func cvFindTaglessSwitchOver(body *ast.BlockStmt, v string) *ast.SwitchStmt {
 	return found
 }
 
-func cvStrLit(e ast.Expr) (string, bool) {
-	bl, ok := e.(*ast.BasicLit)
-	if !ok || bl.Kind != token.STRING {
-		return "", false
-	}
-	s, err := strconv.Unquote(bl.Value)
-	return s, err == nil
-}
-
-// cvOsvTables reads the `switch n { case `AV`: switch v { case `N`: ns[i] = 0.85 ..` table.
-func cvOsvTables(fd *ast.FuncDecl) (weights string, ignored string, err error) {
-	var sw *ast.SwitchStmt
-	ast.Inspect(fd.Body, func(n ast.Node) bool {
-		s, ok := n.(*ast.SwitchStmt)
-		if ok && s.Tag != nil {
-			if id, ok := s.Tag.(*ast.Ident); ok && id.Name == "n" {
-				sw = s
-				return false
-			}
-		}
-		return true
-	})
-	if sw == nil {
-		return "", "", fmt.Errorf("%s: switch over metric name not found", fd.Name.Name)
-	}
-	var rows []string
-	var ign []string
-	for _, st := range sw.Body.List {
-		cc := st.(*ast.CaseClause)
-		if cc.List == nil {
-			continue // default: error
-		}
-		var inner *ast.SwitchStmt
-		idx := int64(-1)
-		for _, b := range cc.Body {
-			switch x := b.(type) {
-			case *ast.SwitchStmt:
-				inner = x
-			case *ast.DeclStmt:
-				if gd, ok := x.Decl.(*ast.GenDecl); ok {
-					for _, sp := range gd.Specs {
-						if vs, ok := sp.(*ast.ValueSpec); ok && len(vs.Names) == 1 && vs.Names[0].Name == "i" && len(vs.Values) == 1 {
-							idx, _ = IntLit(vs.Values[0])
-						}
-					}
-				}
-			}
-		}
-		if inner == nil {
-			for _, e := range cc.List {
-				s, ok := cvStrLit(e)
-				if !ok {
-					return "", "", fmt.Errorf("%s: non-literal metric case", fd.Name.Name)
-				}
-				ign = append(ign, s)
-			}
-			continue
-		}
-		if len(cc.List) != 1 || idx < 0 {
-			return "", "", fmt.Errorf("%s: unexpected metric case shape", fd.Name.Name)
-		}
-		mname, ok := cvStrLit(cc.List[0])
-		if !ok {
-			return "", "", fmt.Errorf("%s: non-literal metric case", fd.Name.Name)
-		}
-		var vals []string
-		for _, ist := range inner.Body.List {
-			icc := ist.(*ast.CaseClause)
-			if icc.List == nil {
-				continue
-			}
-			if len(icc.List) != 1 || len(icc.Body) != 1 {
-				return "", "", fmt.Errorf("%s: unexpected value case shape", fd.Name.Name)
-			}
-			vname, ok := cvStrLit(icc.List[0])
-			as, ok2 := icc.Body[0].(*ast.AssignStmt)
-			if !ok || !ok2 || len(as.Rhs) != 1 {
-				return "", "", fmt.Errorf("%s: unexpected value case body", fd.Name.Name)
-			}
-			w, nan, err := cvScaledLit(as.Rhs[0], 1000)
-			if err != nil || nan {
-				return "", "", fmt.Errorf("%s: weight of %s:%s: %v", fd.Name.Name, mname, vname, err)
-			}
-			vals = append(vals, fmt.Sprintf("(%s, %s)", cvLeanBytes(vname), cvLeanInt(w)))
-		}
-		rows = append(rows, fmt.Sprintf("(%s, %d, [%s])", cvLeanBytes(mname), idx, strings.Join(vals, ", ")))
-	}
-	return "[\n  " + strings.Join(rows, ",\n  ") + "]", cvLeanBytesList(ign), nil
-}
-
 var cvSeverityValue = map[string]int{"Unknown": 0, "Negligible": 1, "Low": 2, "Medium": 3, "High": 4, "Critical": 5}
 var cvQualitativeValue = map[string]int{"None": 1, "Low": 2, "Medium": 3, "High": 4, "Critical": 5}
 
 func genCvss(repo string) (string, error) {
 	const dir = "toolkit/types/cvss/"
 	out := Header("Cvss", dir+"*.go", "updater/osv/cvss.go")
-	for _, ver := range []string{"2", "3", "4"} {
-		_, f, err := ParseFile(repo, dir+"v"+ver+"metric_string.go")
-		if err != nil {
-			return "", err
-		}
-		names, err := cvStringerTable(f, "V"+ver+"Metric")
-		if err != nil {
-			return "", err
-		}
-		valid, err := cvStringerTable(f, "v"+ver+"Valid")
-		if err != nil {
-			return "", err
-		}
-		if len(names) != len(valid) {
-			return "", fmt.Errorf("v%s: %d metric names but %d valid-value strings", ver, len(names), len(valid))
-		}
-		out += fmt.Sprintf("/-- V%sMetric.String(): %s -/\ndef v%sNames : List (List Nat) := %s\n\n", ver, strings.Join(names, " "), ver, cvLeanBytesList(names))
-		out += fmt.Sprintf("/-- v%sValid.String(): %s -/\ndef v%sValid : List (List Nat) := %s\n\n", ver, strings.Join(valid, " "), ver, cvLeanBytesList(valid))
+	ev, pts, err := rxCvssEval(repo)
+	if err != nil {
+		return "", err
 	}
-	for _, ver := range []string{"2", "3"} {
-		_, f, err := ParseFile(repo, dir+"cvss_v"+ver+"_score.go")
-		if err != nil {
-			return "", err
+	// metric names and valid-value strings: String() / validValues() of every metric
+	for _, v := range []struct {
+		ver string
+		t   rxCvssVersion
+	}{{"2", ev.V2}, {"3", ev.V3}, {"4", ev.V4}} {
+		if len(v.t.Names) != len(v.t.Valid) {
+			return "", fmt.Errorf("v%s: %d metric names but %d valid-value strings", v.ver, len(v.t.Names), len(v.t.Valid))
 		}
-		tbl, _, err := cvWeightTable(f, "v"+ver+"Weights")
-		if err != nil {
-			return "", err
-		}
-		out += fmt.Sprintf("/-- v%sWeights, scaled by 1000; `none` is math.NaN(). -/\ndef v%sWeights : List (List (Option Int)) := %s\n\n", ver, ver, tbl)
+		out += fmt.Sprintf("/-- V%sMetric.String(): %s -/\ndef v%sNames : List (List Nat) := %s\n\n", v.ver, strings.Join(v.t.Names, " "), v.ver, cvLeanBytesList(v.t.Names))
+		out += fmt.Sprintf("/-- v%sValid.String(): %s -/\ndef v%sValid : List (List Nat) := %s\n\n", v.ver, strings.Join(v.t.Valid, " "), v.ver, cvLeanBytesList(v.t.Valid))
 	}
-	// QualitativeScore
+	// weight tables as the package holds them
+	for _, v := range []struct {
+		ver string
+		t   rxCvssVersion
+	}{{"2", ev.V2}, {"3", ev.V3}} {
+		rows, err := rxCvssOptRows("v"+v.ver+"Weights", v.t.Weights, 1000)
+		if err != nil {
+			return "", err
+		}
+		out += fmt.Sprintf("/-- v%sWeights, scaled by 1000; `none` is math.NaN(). -/\ndef v%sWeights : List (List (Option Int)) := %s\n\n", v.ver, v.ver, "[\n  "+strings.Join(rows, ",\n  ")+"]")
+	}
+	// QualitativeScore: bands of the evaluated step function
 	{
-		_, f, err := ParseFile(repo, dir+"cvss.go")
-		if err != nil {
-			return "", err
-		}
-		fd := FuncDecl(f, "", "QualitativeScore")
-		if fd == nil {
-			return "", fmt.Errorf("QualitativeScore not found")
-		}
-		sw := cvFindTaglessSwitchOver(fd.Body, "s")
-		if sw == nil {
-			return "", fmt.Errorf("QualitativeScore: switch over s not found")
-		}
-		cases, def, err := cvBandSwitch(sw, "s", func(n string) (int, error) {
+		cases, def, notes, err := rxCvssBands(pts, ev.Qual, func(n string) (int, error) {
 			v, ok := cvQualitativeValue[n]
 			if !ok {
 				return 0, fmt.Errorf("unknown Qualitative %s", n)
@@ -427,42 +227,18 @@ func genCvss(repo string) (string, error) {
 			return "", err
 		}
 		out += "/-- QualitativeScore: (op, bound*10, Qualitative) in order, op 0 `==`, 1 `<`, 2 `<=`;\n    Qualitative: 1 None, 2 Low, 3 Medium, 4 High, 5 Critical. -/\n"
-		out += "def qualCases : List (Nat × Int × Nat) := " + cases + "\n"
-		out += "def qualDefault : Option Nat := " + def + "\n\n"
+		out += "def qualCases : List (Nat × Int × Nat) := [" + strings.Join(cases, ", ") + "]\n"
+		out += "def qualDefault : Option Nat := " + def + "\n" + rxCvssNotes(notes) + "\n"
 	}
 	// v4 score data
 	{
-		_, f, err := ParseFile(repo, dir+"cvss_v4_score_data.go")
-		if err != nil {
-			return "", err
-		}
-		sd, ok := cvFindVar(f, "scoreData").(*ast.CompositeLit)
-		if !ok {
-			return "", fmt.Errorf("scoreData not found")
-		}
-		ms, ok := cvKvField(sd, "macrovectorScore").(*ast.CompositeLit)
-		if !ok {
-			return "", fmt.Errorf("scoreData.macrovectorScore not found")
-		}
 		var rows []string
-		for _, e := range ms.Elts {
-			kv, ok := e.(*ast.KeyValueExpr)
-			if !ok {
-				return "", fmt.Errorf("macrovectorScore: unexpected element")
-			}
-			kcl, ok := kv.Key.(*ast.CompositeLit)
-			if !ok {
-				return "", fmt.Errorf("macrovectorScore: unexpected key")
-			}
-			k, err := cvNatList(kcl)
-			if err != nil || len(k) != 6 {
-				return "", fmt.Errorf("macrovectorScore: key is not six integers")
-			}
-			v, nan, err := cvScaledLit(kv.Value, 10)
+		for _, r := range ev.Mv {
+			v, nan, err := rxCvssScaled(r.S, 10)
 			if err != nil || nan {
-				return "", fmt.Errorf("macrovectorScore: value: %v", err)
+				return "", fmt.Errorf("macrovectorScore: value %s: %v", r.S, err)
 			}
-			rows = append(rows, fmt.Sprintf("(%s, %s)", LeanNatList(k), cvLeanInt(v)))
+			rows = append(rows, fmt.Sprintf("(%s, %s)", LeanNatList(r.K[:]), cvLeanInt(v)))
 		}
 		out += "/-- scoreData.macrovectorScore: macrovector -> score*10. -/\ndef v4MacrovectorScore : List (List Nat × Int) := [\n  "
 		for i, r := range rows {
@@ -477,62 +253,18 @@ func genCvss(repo string) (string, error) {
 			out += r
 		}
 		out += "]\n\n"
-		ed, ok := cvKvField(sd, "eqDepth").(*ast.CompositeLit)
-		if !ok {
-			return "", fmt.Errorf("scoreData.eqDepth not found")
-		}
-		var drows []string
-		for _, r := range ed.Elts {
-			rl, ok := r.(*ast.CompositeLit)
-			if !ok {
-				return "", fmt.Errorf("eqDepth: unexpected row")
-			}
-			var cells []string
-			for _, c := range rl.Elts {
-				n, nan, err := cvScaledLit(c, 1)
-				if err != nil {
-					return "", fmt.Errorf("eqDepth: %w", err)
-				}
-				if nan {
-					cells = append(cells, "none")
-				} else {
-					cells = append(cells, "some "+cvLeanInt(n))
-				}
-			}
-			drows = append(drows, "["+strings.Join(cells, ", ")+"]")
+		drows, err := rxCvssOptRows("eqDepth", ev.EqDepth, 1)
+		if err != nil {
+			return "", err
 		}
 		out += "/-- scoreData.eqDepth (EQ -> level -> depth); `none` is math.NaN(). -/\ndef v4EqDepth : List (List (Option Int)) := [" + strings.Join(drows, ", ") + "]\n\n"
-		mf, ok := cvKvField(sd, "maxFrag").(*ast.CompositeLit)
-		if !ok {
-			return "", fmt.Errorf("scoreData.maxFrag not found")
-		}
 		var eqs []string
-		for _, eq := range mf.Elts {
-			eql, ok := eq.(*ast.CompositeLit)
-			if !ok {
-				return "", fmt.Errorf("maxFrag: unexpected EQ")
-			}
+		for _, eq := range ev.MaxFrag {
 			var lvls []string
-			for _, lv := range eql.Elts {
-				lvl, ok := lv.(*ast.CompositeLit)
-				if !ok {
-					return "", fmt.Errorf("maxFrag: unexpected level")
-				}
+			for _, lv := range eq {
 				var frags []string
-				for _, fr := range lvl.Elts {
-					frl, ok := fr.(*ast.CompositeLit)
-					if !ok {
-						return "", fmt.Errorf("maxFrag: unexpected fragment")
-					}
-					mv, ok := cvKvField(frl, "mv").(*ast.CompositeLit)
-					if !ok {
-						return "", fmt.Errorf("maxFrag: fragment without mv")
-					}
-					bs, err := cvNatList(mv)
-					if err != nil {
-						return "", fmt.Errorf("maxFrag: %w", err)
-					}
-					frags = append(frags, LeanNatList(bs))
+				for _, fr := range lv {
+					frags = append(frags, LeanNatList(fr))
 				}
 				lvls = append(lvls, "["+strings.Join(frags, ",\n    ")+"]")
 			}
@@ -542,32 +274,19 @@ func genCvss(repo string) (string, error) {
 	}
 	// OSV
 	{
-		_, f, err := ParseFile(repo, "updater/osv/cvss.go")
+		p, err := rxLoadPkg(repo, "updater/osv")
 		if err != nil {
 			return "", err
 		}
-		for _, fn := range []struct{ name, lean string }{{"fromCVSS3", "osv3"}, {"fromCVSS2", "osv2"}} {
-			fd := FuncDecl(f, "", fn.name)
-			if fd == nil {
-				return "", fmt.Errorf("%s not found", fn.name)
-			}
-			w, ign, err := cvOsvTables(fd)
+		for _, fn := range []struct{ name, lean, ver string }{{"fromCVSS3", "osv3", "3"}, {"fromCVSS2", "osv2", "2"}} {
+			w, ign, notes, err := rxCvssOsvTables(fn.name, fn.ver, ev.Osv[fn.ver])
 			if err != nil {
 				return "", err
 			}
 			out += fmt.Sprintf("/-- %s: (metric name, slot in ns, [(value, weight*1000)]) of the metric switch. -/\ndef %sWeights : List (List Nat × Nat × List (List Nat × Int)) := %s\n", fn.name, fn.lean, w)
 			out += fmt.Sprintf("/-- %s: metric names accepted and ignored. -/\ndef %sIgnored : List (List Nat) := %s\n", fn.name, fn.lean, ign)
-			sw := cvFindTaglessSwitchOver(fd.Body, "score")
-			if sw == nil {
-				return "", fmt.Errorf("%s: severity switch over score not found", fn.name)
-			}
-			cases, def, err := cvBandSwitch(sw, "score", func(n string) (int, error) {
-				v, ok := cvSeverityValue[n]
-				if !ok {
-					return 0, fmt.Errorf("unknown Severity %s", n)
-				}
-				return v, nil
-			})
+			out += rxCvssNotes(notes)
+			cases, def, err := cvOsvBands(p, fn.name)
 			if err != nil {
 				return "", err
 			}
@@ -576,4 +295,40 @@ func genCvss(repo string) (string, error) {
 		}
 	}
 	return out + Footer("Cvss"), nil
+}
+
+// cvOsvBands reads the rating construct of fromCVSSn: the tolerant reader of
+// Gen/Severity (severity.go bandSwitch: tagless switch / if chain / run of early
+// returns over one score variable with an error default, bounds as literals or
+// constants, in the function or in the one helper it hands the score to); a
+// default that yields a severity instead of an error is only read in the plain
+// switch form.
+func cvOsvBands(p *rxPkg, fn string) (string, string, error) {
+	bs, err := bandSwitch(p, fn)
+	if err == nil {
+		var cases []string
+		for _, b := range bs {
+			op, ok := map[string]int{"==": 0, "<": 1, "<=": 2}[b.op]
+			if !ok {
+				return "", "", fmt.Errorf("%s: unsupported comparison %s", fn, b.op)
+			}
+			cases = append(cases, fmt.Sprintf("(%d, %s, %d)", op, cvLeanInt(b.bound), b.sev))
+		}
+		return "[" + strings.Join(cases, ", ") + "]", "none", nil
+	}
+	fd := p.Func("", fn)
+	if fd == nil {
+		return "", "", fmt.Errorf("%s not found", fn)
+	}
+	sw := cvFindTaglessSwitchOver(fd.Body, "score")
+	if sw == nil {
+		return "", "", fmt.Errorf("%s: %v", fn, err)
+	}
+	return cvBandSwitch(sw, "score", func(n string) (int, error) {
+		v, ok := cvSeverityValue[n]
+		if !ok {
+			return 0, fmt.Errorf("unknown Severity %s", n)
+		}
+		return v, nil
+	})
 }
